@@ -390,6 +390,8 @@ def main():
                         w = witness.gen_refmodel(pid, fake)
                     if w is None and pid in ('C09', 'C10', 'C12', 'C13', 'C18'):
                         w = witness.gen_framing(pid, fake) or witness.gen_sock(pid, fake)
+                    if w is None and pid in ('C15', 'C14'):
+                        w = witness.gen_policy(pid, fake)
                     if w is None and pid in ('C16',):
                         w = witness.gen_hang(pid, fake)
                 if w is not None:
